@@ -7,9 +7,16 @@
 //!           | k <n> (<len> <lit>*)^n      compile_cnf of Cnf::new(raw clauses); lit = 2*var + polarity
 //!        with compression off AND a compile_cnf in the program only truth tables are printed (the clause
 //!        order after the code's sort with a non-total comparator is not determined by the property)
+//! generator: the general operation mix on vtrees of 1..7 leaves (labels 0..6), plus three shape families
+//!        (gen_dense, gen_mixed, gen_wide; labels 0..7): DENSE = Shannon expansions over the 3..5 left
+//!        variables of a vtree node with a palette of small right-hand functions (s, !s, literals,
+//!        constants), combined by and/or/xor/iff in both argument orders (9..32 cells per product);
+//!        MIXED = a binary decision above a general node, ((a ((b c) d)) rest); WIDE = 8 variables,
+//!        ((3|3) | 2), two 8-element selectors whose product has 64 cells.  C03_FAMILY=dense|mixed|
+//!        wide|base forces one family (development aid).
 //! out:   unfolding of every pool entry (re-walked after the last operation), '#', then for every
 //!        entry the index of the first pointer-equal entry.
-//! oracle: truth table (128 rows, variables 0..6) of every entry, computed by walking the nodes
+//! oracle: truth table (256 rows, variables 0..7) of every entry, computed by walking the nodes
 //!        (elements, complement bits) -- not through the library's evaluation -- against the spec
 //!        program evaluated on bitsets; per reachable node the partition / confinement rules
 //!        (C03: what and() relies on; C04 additionally non-false primes, distinct subs, trimming,
@@ -30,27 +37,110 @@ fn main() {
     run_main(PROP)
 }
 
-const NV: usize = 7; // truth tables range over variables 0..6
-type TT = u128;
+const NV: usize = 8; // truth tables range over variables 0..7 (256 rows)
+/// the original program families draw their labels from 0..6 (the truth-table mode of the OCaml
+/// driver prints 128 rows); only the dense / mixed / wide families use label 7
+const NV_BASE: usize = 7;
 
-fn var_mask(v: usize) -> TT {
-    let mut m: TT = 0;
-    for row in 0..(1usize << NV) {
-        if (row >> v) & 1 == 1 {
-            m |= 1u128 << row;
+/// 256-row truth table: row r (bit v of r = value of variable v) is bit r % 128 of word r / 128
+#[derive(Clone, Copy, PartialEq, Eq, Hash, Default, Debug)]
+struct TT([u128; 2]);
+impl TT {
+    const ZERO: TT = TT([0, 0]);
+    const FULL: TT = TT([!0, !0]);
+    #[allow(dead_code)]
+    fn bit(self, row: usize) -> bool {
+        (self.0[row >> 7] >> (row & 127)) & 1 == 1
+    }
+    fn full() -> TT {
+        TT::FULL
+    }
+    fn is_zero(self) -> bool {
+        self == TT::ZERO
+    }
+    /// rows move up by n (1 <= n <= 128)
+    fn shl(self, n: usize) -> TT {
+        if n >= 128 {
+            TT([0, self.0[0]])
+        } else {
+            TT([self.0[0] << n, (self.0[1] << n) | (self.0[0] >> (128 - n))])
         }
     }
-    m
+    /// rows move down by n (1 <= n <= 128)
+    fn shr(self, n: usize) -> TT {
+        if n >= 128 {
+            TT([self.0[1], 0])
+        } else {
+            TT([(self.0[0] >> n) | (self.0[1] << (128 - n)), self.0[1] >> n])
+        }
+    }
+    /// all 256 rows, row 255 first
+    fn hex(self) -> String {
+        format!("{:032x}{:032x}", self.0[1], self.0[0])
+    }
+    /// rows 127..0 (variable 7 false): the format of the OCaml driver's truth-table mode
+    fn hex_lo(self) -> String {
+        format!("{:032x}", self.0[0])
+    }
+}
+impl std::ops::BitAnd for TT {
+    type Output = TT;
+    fn bitand(self, o: TT) -> TT {
+        TT([self.0[0] & o.0[0], self.0[1] & o.0[1]])
+    }
+}
+impl std::ops::BitOr for TT {
+    type Output = TT;
+    fn bitor(self, o: TT) -> TT {
+        TT([self.0[0] | o.0[0], self.0[1] | o.0[1]])
+    }
+}
+impl std::ops::BitXor for TT {
+    type Output = TT;
+    fn bitxor(self, o: TT) -> TT {
+        TT([self.0[0] ^ o.0[0], self.0[1] ^ o.0[1]])
+    }
+}
+impl std::ops::Not for TT {
+    type Output = TT;
+    fn not(self) -> TT {
+        TT([!self.0[0], !self.0[1]])
+    }
+}
+impl std::ops::BitOrAssign for TT {
+    fn bitor_assign(&mut self, o: TT) {
+        *self = *self | o
+    }
+}
+impl std::ops::BitAndAssign for TT {
+    fn bitand_assign(&mut self, o: TT) {
+        *self = *self & o
+    }
+}
+
+fn var_mask(v: usize) -> TT {
+    if v == 7 {
+        return TT([0, !0]);
+    }
+    // blocks of 2^v zeros and 2^v ones, repeated over 128 rows
+    let w = 1usize << v;
+    let mut m: u128 = if v == 6 { !0u128 << 64 } else { ((1u128 << w) - 1) << w };
+    let mut width = 2 * w;
+    while width < 128 {
+        m |= m << width;
+        width *= 2;
+    }
+    TT([m, m])
 }
 fn tt_cond(f: TT, v: usize, b: bool) -> TT {
     let m = var_mask(v);
     let sh = 1usize << v;
     if b {
         let hi = f & m;
-        hi | (hi >> sh)
+        hi | hi.shr(sh)
     } else {
         let lo = f & !m;
-        lo | (lo << sh)
+        lo | lo.shl(sh)
     }
 }
 fn tt_depends(f: TT, v: usize) -> bool {
@@ -231,7 +321,348 @@ fn vt_balanced(labels: &[u64]) -> VT {
     }
 }
 
+fn vt_shape(rng: &mut Rng, labels: &[u64]) -> VT {
+    match rng.below(5) {
+        0 => vt_right(labels),
+        1 => vt_left(labels),
+        2 => vt_balanced(labels),
+        _ => vt_random(rng, labels),
+    }
+}
+fn vt_node(l: VT, r: VT) -> VT {
+    VT::N(Box::new(l), Box::new(r))
+}
+
 // ---------- generator ----------
+/// the operation text of a case under construction; `len` = number of pool entries so far
+struct Prog {
+    s: String,
+    len: usize,
+}
+impl Prog {
+    fn emit(&mut self, op: String) -> usize {
+        self.s.push(' ');
+        self.s.push_str(&op);
+        self.len += 1;
+        self.len - 1
+    }
+}
+/// a function by Shannon expansion over `vars` (pool indices of positive literals, outermost
+/// first) with if-then-else operations; the 2^|vars| leaves are pool indices drawn from `palette`
+/// (`distinct`: without replacement, as far as the palette reaches)
+fn shannon(rng: &mut Rng, p: &mut Prog, vars: &[usize], palette: &[usize], distinct: bool) -> usize {
+    let n = 1usize << vars.len();
+    let mut layer: Vec<usize> = if distinct {
+        let mut pal: Vec<usize> = palette.to_vec();
+        pal.sort();
+        pal.dedup();
+        rng.shuffle(&mut pal);
+        (0..n).map(|k| pal[k % pal.len()]).collect()
+    } else {
+        (0..n).map(|_| *rng.pick(palette)).collect()
+    };
+    for d in (0..vars.len()).rev() {
+        let x = vars[d];
+        layer = layer.chunks(2).map(|pr| p.emit(format!("i {x} {} {}", pr[0], pr[1]))).collect();
+    }
+    layer[0]
+}
+/// positive literals of all labels; returns the pool index of the literal of labels[0]
+fn emit_lits(p: &mut Prog, labels: &[u64]) -> usize {
+    let base = p.len;
+    for l in labels {
+        p.emit(format!("v {l} 1"));
+    }
+    base
+}
+/// the same binary operation in both argument orders (the canonicity oracle compares the two)
+fn emit_both(rng: &mut Rng, p: &mut Prog, ops: &[&str], f: usize, g: usize) {
+    for op in ops {
+        if rng.coin() {
+            p.emit(format!("{op} {f} {g}"));
+            p.emit(format!("{op} {g} {f}"));
+        } else {
+            p.emit(format!("{op} {g} {f}"));
+            p.emit(format!("{op} {f} {g}"));
+        }
+    }
+}
+fn some_ops(rng: &mut Rng, lo: usize, hi: usize) -> Vec<&'static str> {
+    let mut ops = vec!["a", "o", "x", "q"];
+    rng.shuffle(&mut ops);
+    ops.truncate(rng.range(lo, hi));
+    ops
+}
+
+/// DENSE family: two or three random functions over 5..7 variables, each a Shannon expansion over
+/// some of the 3..5 variables under the LEFT child of a vtree node (balanced / random / linear
+/// inside) with leaves from a palette of small functions of the variables under the right child
+/// (constants, literals, a decision node s, its complement !s, ...), then and/or/xor/iff between
+/// two of them in BOTH argument orders, and ite(f,g,h) against ite(!f,h,g).  The cartesian products
+/// at that vtree node have up to 2^5 cells with repeated and complemented subs.
+fn gen_dense(rng: &mut Rng, frac: usize) -> (VT, Vec<u64>, Prog) {
+    let n = if frac < 30 { rng.range(5, 6) } else { *rng.pick(&[5, 6, 6, 6, 7, 7, 7, 7]) };
+    let mut labels: Vec<u64> = rng.perm(NV).into_iter().map(|x| x as u64).collect();
+    if rng.coin() {
+        labels = (0..NV as u64).collect();
+    }
+    labels.truncate(n);
+    // left child: 3..5 variables, at least one (mostly two or more) on the right
+    let mut k = rng.range(3, 5.min(n - 1));
+    if n - k < 2 && rng.chance(3, 4) {
+        k = n - 2;
+    }
+    let core = vt_node(vt_shape(rng, &labels[..k]), vt_shape(rng, &labels[k..]));
+    let mut all = labels.clone();
+    // sometimes the dense node is not the root
+    let vt = if n < NV && rng.chance(1, 5) {
+        let extra = (0..NV as u64).find(|x| !labels.contains(x)).unwrap();
+        all.push(extra);
+        if rng.coin() { vt_node(VT::L(extra), core) } else { vt_node(core, VT::L(extra)) }
+    } else {
+        core
+    };
+    let mut p = Prog { s: String::new(), len: 0 };
+    let base = emit_lits(&mut p, &labels);
+    let lit = |i: usize| base + i;
+    // palette over the right variables
+    let tt = p.emit("t".to_string());
+    let ff = p.emit("f".to_string());
+    let r0 = lit(k);
+    let nr0 = p.emit(format!("n {r0}"));
+    let mut pal = vec![tt, ff, r0, nr0];
+    if n - k >= 2 {
+        let r1 = lit(k + 1);
+        let nr1 = p.emit(format!("n {r1}"));
+        let s = p.emit(format!("{} {} {}", rng.pick(&["a", "a", "o", "x"]), rng.pick(&[r0, nr0]), rng.pick(&[r1, nr1])));
+        let ns = p.emit(format!("n {s}"));
+        pal.extend([r1, nr1, s, ns, s, ns, s, ns]);
+        if n - k >= 3 {
+            let r2 = lit(k + 2);
+            let s2 = p.emit(format!("{} {} {}", rng.pick(&["a", "o", "x", "q"]), rng.pick(&[s, ns, r1]), r2));
+            let ns2 = p.emit(format!("n {s2}"));
+            pal.extend([r2, s2, ns2, s2, ns2]);
+        } else if rng.coin() {
+            let s2 = p.emit(format!("{} {} {}", rng.pick(&["a", "o", "x"]), rng.pick(&[r0, nr0]), rng.pick(&[r1, nr1])));
+            let ns2 = p.emit(format!("n {s2}"));
+            pal.extend([s2, ns2]);
+        }
+    }
+    // the functions: expansions over 2..4 of the left variables (all of them, or a random subset)
+    let nf = if rng.chance(1, 3) { 3 } else { 2 };
+    let mut fs = vec![];
+    for _ in 0..nf {
+        let mut vars: Vec<usize> = (0..k).map(lit).collect();
+        if rng.chance(2, 3) {
+            rng.shuffle(&mut vars);
+            vars.truncate(rng.range(2, k.min(3)));
+            if rng.coin() {
+                vars.sort();
+            }
+        } else if k > 4 {
+            vars.truncate(4);
+        }
+        // a sub-palette per function keeps the number of distinct subs (elements) varied
+        let mut sub = pal.clone();
+        if rng.chance(1, 4) {
+            // mostly constant subs and one other: conditioning a prime-side variable often leaves
+            // only the constant subs (a node that has to be trimmed)
+            let other = *rng.pick(&pal);
+            sub = vec![tt, ff, tt, ff, other];
+        } else if rng.coin() {
+            rng.shuffle(&mut sub);
+            sub.truncate(rng.range(3, 6));
+        }
+        fs.push(shannon(rng, &mut p, &vars, &sub, false));
+    }
+    let (f, g) = (fs[0], fs[1]);
+    let ops = some_ops(rng, 2, 3);
+    emit_both(rng, &mut p, &ops, f, g);
+    if nf == 3 {
+        let h = fs[2];
+        let nfx = p.emit(format!("n {f}"));
+        if rng.coin() {
+            p.emit(format!("i {f} {g} {h}"));
+            p.emit(format!("i {nfx} {h} {g}"));
+        } else {
+            p.emit(format!("i {nfx} {h} {g}"));
+            p.emit(format!("i {f} {g} {h}"));
+        }
+        let ops = some_ops(rng, 1, 1);
+        let other = *rng.pick(&[f, g]);
+        emit_both(rng, &mut p, &ops, h, other);
+    }
+    // condition / exists / compose of the dense functions and of the products, mostly on a
+    // prime-side (left) variable
+    let first_result = fs[nf - 1] + 1;
+    for _ in 0..rng.range(0, 3) {
+        let target = if rng.coin() { *rng.pick(&fs) } else { rng.range(first_result, p.len - 1) };
+        let v = if rng.chance(3, 4) { *rng.pick(&labels[..k]) } else { *rng.pick(&labels) };
+        match rng.below(5) {
+            0 | 1 => p.emit(format!("c {target} {v} {}", rng.coin() as u8)),
+            2 | 3 => p.emit(format!("e {target} {v}")),
+            _ => p.emit(format!("m {target} {v} {}", rng.pick(&pal))),
+        };
+    }
+    (vt, all, p)
+}
+
+/// MIXED-SHAPE family: a binary decision (vtree node with a leaf on the left) above a general
+/// node (its right child is not right-linear): ((a ((b c) d)) rest) and relatives, with random
+/// functions G1, G2 of the inner variables (Shannon expansion), B = a op G, f = B <=> e / B xor e /
+/// ite(B, e, G2).  Right-linear, left-linear and balanced vtrees never give this shape.
+fn gen_mixed(rng: &mut Rng, frac: usize) -> (VT, Vec<u64>, Prog) {
+    let n = if frac < 30 { 5 } else { rng.range(5, 7) };
+    let mut labels: Vec<u64> = rng.perm(NV).into_iter().map(|x| x as u64).collect();
+    if rng.coin() {
+        labels = (0..NV as u64).collect();
+    }
+    labels.truncate(n);
+    let a = labels[0];
+    let k = if n >= 6 && rng.coin() { 4 } else { 3 };
+    let inner: Vec<u64> = labels[1..1 + k].to_vec();
+    let m = if k == 3 {
+        if rng.chance(2, 3) { vt_node(vt_node(VT::L(inner[0]), VT::L(inner[1])), VT::L(inner[2])) } else { vt_random(rng, &inner) }
+    } else if rng.coin() {
+        vt_balanced(&inner)
+    } else {
+        vt_left(&inner)
+    };
+    let left = vt_node(VT::L(a), m);
+    let rest = &labels[1 + k..];
+    let r = vt_shape(rng, rest);
+    let vt = if rng.chance(3, 4) { vt_node(left, r) } else { vt_node(r, left) };
+    let mut p = Prog { s: String::new(), len: 0 };
+    let base = emit_lits(&mut p, &labels);
+    let lit_of = |l: u64| base + labels.iter().position(|x| *x == l).unwrap();
+    let last = lit_of(*inner.last().unwrap());
+    let nlast = p.emit(format!("n {last}"));
+    let tt = p.emit("t".to_string());
+    let ff = p.emit("f".to_string());
+    let vars: Vec<usize> = inner[..k - 1].iter().map(|l| lit_of(*l)).collect();
+    let g1 = shannon(rng, &mut p, &vars, &[last, nlast, tt, ff, last, nlast], false);
+    let g2 = shannon(rng, &mut p, &vars, &[last, nlast, tt, ff, last, nlast], false);
+    let al = lit_of(a);
+    let bnode = match rng.below(3) {
+        0 => p.emit(format!("a {al} {g1}")),
+        1 => p.emit(format!("o {al} {g1}")),
+        _ => p.emit(format!("i {al} {g1} {g2}")),
+    };
+    let e = lit_of(*labels.last().unwrap());
+    let f = match rng.below(3) {
+        0 => p.emit(format!("q {bnode} {e}")),
+        1 => p.emit(format!("x {bnode} {e}")),
+        _ => p.emit(format!("i {bnode} {e} {g2}")),
+    };
+    if rng.coin() {
+        let ops = some_ops(rng, 1, 2);
+        emit_both(rng, &mut p, &ops, f, g2);
+    }
+    (vt, labels, p)
+}
+
+/// WIDE family (8 variables): the left child of the root has 6 variables split 3|3 (or 2|4, 4|2),
+/// the right child 2.  Operand A selects, by the minterms of the first group, among pairwise
+/// distinct functions of the two right variables; operand B does the same over the second group.
+/// and/or/xor/iff of A and B is a cartesian product of up to 64 (prime, sub) cells at the root,
+/// of which only 16 subs can be different.
+fn gen_wide(rng: &mut Rng) -> (VT, Vec<u64>, Prog) {
+    let mut labels: Vec<u64> = (0..NV as u64).collect();
+    if rng.coin() {
+        rng.shuffle(&mut labels);
+    }
+    let ka = *rng.pick(&[3, 3, 3, 3, 2, 4]);
+    let kb = 6 - ka;
+    let left = if rng.chance(4, 5) {
+        vt_node(vt_shape(rng, &labels[..ka]), vt_shape(rng, &labels[ka..6]))
+    } else {
+        vt_shape(rng, &labels[..6])
+    };
+    let right = vt_node(VT::L(labels[6]), VT::L(labels[7]));
+    let vt = vt_node(left, right);
+    let mut p = Prog { s: String::new(), len: 0 };
+    let base = emit_lits(&mut p, &labels);
+    // all 16 functions of the two right variables
+    let (r0, r1) = (base + 6, base + 7);
+    let nr0 = p.emit(format!("n {r0}"));
+    let nr1 = p.emit(format!("n {r1}"));
+    let mut pal = vec![r0, r1, nr0, nr1];
+    for (x, y) in [(r0, r1), (r0, nr1), (nr0, r1), (nr0, nr1)] {
+        let c = p.emit(format!("a {x} {y}"));
+        pal.push(c);
+        pal.push(p.emit(format!("n {c}")));
+    }
+    let x = p.emit(format!("x {r0} {r1}"));
+    pal.push(x);
+    pal.push(p.emit(format!("n {x}")));
+    pal.push(p.emit("t".to_string()));
+    pal.push(p.emit("f".to_string()));
+    let va: Vec<usize> = (0..ka).map(|i| base + i).collect();
+    let vb: Vec<usize> = (ka..ka + kb).map(|i| base + i).collect();
+    let distinct = !rng.chance(1, 6);
+    let a = shannon(rng, &mut p, &va, &pal, distinct);
+    let b = shannon(rng, &mut p, &vb, &pal, distinct);
+    let mut ops = vec!["a"];
+    if rng.coin() {
+        ops.push(*rng.pick(&["o", "x", "q"]));
+    }
+    emit_both(rng, &mut p, &ops, a, b);
+    (vt, labels, p)
+}
+
+/// random operations on the pool (`len` entries so far) until it has `nops` entries
+fn gen_tail(rng: &mut Rng, s: &mut String, len0: usize, nops: usize, labels: &[u64], cnf_case: bool, maxcl: usize) {
+    let mut len = len0;
+    let lit = |rng: &mut Rng| format!(" v {} {}", rng.pick(labels), rng.coin() as u8);
+    while len < nops {
+        // operands: biased towards recent (larger) results
+        let mut i = rng.below(len as u64) as usize;
+        if rng.coin() {
+            i = len - 1 - rng.below(len.min(4) as u64) as usize;
+        }
+        // edge stream: equal arguments, an argument and its negation, recent results
+        let mut j = rng.below(len as u64) as usize;
+        if rng.chance(1, 10) {
+            j = i;
+        }
+        if rng.chance(1, 3) {
+            j = len - 1;
+        }
+        let k = rng.below(len as u64) as usize;
+        let v = *rng.pick(labels);
+        // ite family: two if-then-elses that normalise to the same standard triple (the cache key
+        // of one must not answer the other): ite(!a, c, !b) and ite(a, b, c), in either order
+        if len >= 3 && len + 4 <= nops && rng.chance(1, 12) {
+            let (a, b, c) = (i, j, k);
+            let (na, nb) = (len, len + 1);
+            s.push_str(&format!(" n {a} n {b}"));
+            if rng.coin() {
+                s.push_str(&format!(" i {na} {c} {nb} i {a} {b} {c}"));
+            } else {
+                s.push_str(&format!(" i {a} {b} {c} i {na} {c} {nb}"));
+            }
+            len += 4;
+            continue;
+        }
+        let op = match rng.below(if cnf_case { 108 } else { 100 }) {
+            100..=107 => cnf_text(&gen_cnf(rng, labels, maxcl)),
+            0..=7 => lit(rng),
+            8..=9 => (if rng.coin() { " t" } else { " f" }).to_string(),
+            10..=14 => format!(" n {i}"),
+            15..=39 => format!(" a {i} {j}"),
+            40..=54 => format!(" o {i} {j}"),
+            55..=61 => format!(" x {i} {j}"),
+            62..=68 => format!(" q {i} {j}"),
+            69..=78 => format!(" i {i} {j} {k}"),
+            79..=87 => format!(" c {i} {v} {}", rng.coin() as u8),
+            88..=93 => format!(" e {i} {v}"),
+            _ => format!(" m {i} {v} {j}"),
+        };
+        s.push_str(&op);
+        len += 1;
+    }
+}
+
 pub fn gen(rng: &mut Rng, idx: usize, n: usize, thorough: bool) -> String {
     let frac = (idx * 100) / n.max(1);
     let compress = if C04 { !rng.chance(1, 8) } else { rng.chance(3, 5) };
@@ -243,12 +674,40 @@ pub fn gen(rng: &mut Rng, idx: usize, n: usize, thorough: bool) -> String {
     } else {
         0
     };
+    // shape families, 15% dense / 6% mixed / 3% wide of the cases after the first 8%: see gen_dense,
+    // gen_mixed, gen_wide (their programs end with 0..3 operations of the general mix)
+    if frac >= 8 {
+        let mut fam = rng.below(1000);
+        // development knob: C03_FAMILY=dense|mixed|wide|base forces one family
+        match std::env::var("C03_FAMILY").as_deref() {
+            Ok("dense") => fam = 0,
+            Ok("mixed") => fam = 150,
+            Ok("wide") => fam = 210,
+            Ok("base") => fam = 999,
+            _ => {}
+        }
+        let pre = if fam < 150 {
+            Some(("dense", gen_dense(rng, frac), true, rng.range(0, 3)))
+        } else if fam < 210 {
+            Some(("mixed", gen_mixed(rng, frac), compress || rng.coin(), rng.range(0, 3)))
+        } else if fam < 240 {
+            Some(("wide", gen_wide(rng), true, rng.range(0, 1)))
+        } else {
+            None
+        };
+        if let Some((_name, (vt, labels, p), compress, extra)) = pre {
+            let mut s = format!("{} {} {} ;{}", compress as u8, cap, vt_text(&vt), p.s);
+            let nops = p.len + extra;
+            gen_tail(rng, &mut s, p.len, nops, &labels, false, 0);
+            return s;
+        }
+    }
     let maxleaves = if frac < 12 { 3 } else if frac < 40 { 4 } else if frac < 70 { 5 } else { 7 };
     let nleaves = rng.range(if frac < 5 { 1 } else if frac < 40 { 2 } else { 3 }, maxleaves);
     // labels: a random subset of 0..6, in random order
-    let mut labels: Vec<u64> = rng.perm(NV).into_iter().map(|x| x as u64).collect();
+    let mut labels: Vec<u64> = rng.perm(NV_BASE).into_iter().map(|x| x as u64).collect();
     if rng.coin() {
-        labels = (0..NV as u64).collect();
+        labels = (0..NV_BASE as u64).collect();
         rng.shuffle(&mut labels[..nleaves.max(1)]);
     }
     labels.truncate(nleaves);
@@ -303,53 +762,7 @@ pub fn gen(rng: &mut Rng, idx: usize, n: usize, thorough: bool) -> String {
         s.push_str(&cnf_text(&first_cnf));
         len += 1;
     }
-    while len < nops {
-        // operands: biased towards recent (larger) results
-        let mut i = rng.below(len as u64) as usize;
-        if rng.coin() {
-            i = len - 1 - rng.below(len.min(4) as u64) as usize;
-        }
-        // edge stream: equal arguments, an argument and its negation, recent results
-        let mut j = rng.below(len as u64) as usize;
-        if rng.chance(1, 10) {
-            j = i;
-        }
-        if rng.chance(1, 3) {
-            j = len - 1;
-        }
-        let k = rng.below(len as u64) as usize;
-        let v = *rng.pick(&labels);
-        // ite family: two if-then-elses that normalise to the same standard triple (the cache key
-        // of one must not answer the other): ite(!a, c, !b) and ite(a, b, c), in either order
-        if len >= 3 && len + 4 <= nops && rng.chance(1, 12) {
-            let (a, b, c) = (i, j, k);
-            let (na, nb) = (len, len + 1);
-            s.push_str(&format!(" n {a} n {b}"));
-            if rng.coin() {
-                s.push_str(&format!(" i {na} {c} {nb} i {a} {b} {c}"));
-            } else {
-                s.push_str(&format!(" i {a} {b} {c} i {na} {c} {nb}"));
-            }
-            len += 4;
-            continue;
-        }
-        let op = match rng.below(if cnf_case { 108 } else { 100 }) {
-            100..=107 => cnf_text(&gen_cnf(rng, &labels, maxcl)),
-            0..=7 => lit(rng),
-            8..=9 => (if rng.coin() { " t" } else { " f" }).to_string(),
-            10..=14 => format!(" n {i}"),
-            15..=39 => format!(" a {i} {j}"),
-            40..=54 => format!(" o {i} {j}"),
-            55..=61 => format!(" x {i} {j}"),
-            62..=68 => format!(" q {i} {j}"),
-            69..=78 => format!(" i {i} {j} {k}"),
-            79..=87 => format!(" c {i} {v} {}", rng.coin() as u8),
-            88..=93 => format!(" e {i} {v}"),
-            _ => format!(" m {i} {v} {j}"),
-        };
-        s.push_str(&op);
-        len += 1;
-    }
+    gen_tail(rng, &mut s, len, nops, &labels, cnf_case, maxcl);
     s
 }
 
@@ -379,8 +792,8 @@ impl Walk {
             return *x;
         }
         let r = match p {
-            SddPtr::PtrTrue => !0,
-            SddPtr::PtrFalse => 0,
+            SddPtr::PtrTrue => TT::FULL,
+            SddPtr::PtrFalse => TT::ZERO,
             SddPtr::Var(l, b) => {
                 let m = self.masks[l.value() as usize];
                 if b { m } else { !m }
@@ -393,7 +806,7 @@ impl Walk {
                 if matches!(p, SddPtr::ComplBDD(_)) { !x } else { x }
             }
             SddPtr::Reg(o) | SddPtr::Compl(o) => {
-                let mut x: TT = 0;
+                let mut x: TT = TT::ZERO;
                 for a in o.iter() {
                     let pt = self.tt(a.prime());
                     let st = self.tt(a.sub());
@@ -482,12 +895,33 @@ fn classify(a: SddPtr, b: SddPtr, infos: &[VInfo]) -> &'static str {
     }
 }
 
+/// statistics: number of consistent (prime, prime) cells of a cartesian-product apply
+fn cells_stat(a: SddPtr, b: SddPtr, infos: &[VInfo], w: &mut Walk, st: &mut Stats) {
+    if let (SddPtr::Reg(x) | SddPtr::Compl(x), SddPtr::Reg(y) | SddPtr::Compl(y)) = (a, b) {
+        if classify(a, b, infos) != "and_cartesian" {
+            return;
+        }
+        let mut cells = 0;
+        for p in x.iter() {
+            for q in y.iter() {
+                if !(w.tt(p.prime()) & w.tt(q.prime())).is_zero() {
+                    cells += 1;
+                }
+            }
+        }
+        st.bump(if cells > 32 { "cartesian_cells>32" } else if cells > 8 { "cartesian_cells_9..32" } else { "cartesian_cells<=8" });
+    }
+}
+
 /// structural rules of one reachable node, from truth tables of its own primes and subs
 fn check_node(p: SddPtr, w: &mut Walk, infos: &[VInfo], compress: bool, fails: &mut Vec<String>, st: &mut Stats) {
-    let full: TT = !0;
+    let full: TT = TT::full();
     match p {
         SddPtr::BDD(b) | SddPtr::ComplBDD(b) => {
             st.bump("nodes_binary");
+            if matches!(b.low(), SddPtr::Reg(_) | SddPtr::Compl(_)) || matches!(b.high(), SddPtr::Reg(_) | SddPtr::Compl(_)) {
+                st.bump("nodes_binary_above_general");
+            }
             let i = b.index().value();
             if i >= infos.len() || infos[i].leaf.is_some() {
                 fails.push(format!("binary node {} sits at vtree index {i}, which is not an internal node", w.show(p)));
@@ -507,7 +941,7 @@ fn check_node(p: SddPtr, w: &mut Walk, infos: &[VInfo], compress: bool, fails: &
                 if b.low() == b.high() || w.tt(b.low()) == w.tt(b.high()) {
                     fails.push(format!("binary node {} has two equal children (not compressed)", w.show(p)));
                 }
-                if (w.tt(b.low()) == 0 && w.tt(b.high()) == full) || (w.tt(b.low()) == full && w.tt(b.high()) == 0) {
+                if (w.tt(b.low()).is_zero() && w.tt(b.high()) == full) || (w.tt(b.low()) == full && w.tt(b.high()).is_zero()) {
                     fails.push(format!("binary node {} is a literal in disguise (not trimmed)", w.show(p)));
                 }
             }
@@ -521,7 +955,7 @@ fn check_node(p: SddPtr, w: &mut Walk, infos: &[VInfo], compress: bool, fails: &
             }
             let inf = infos[i].clone();
             let els: Vec<(SddPtr, SddPtr)> = o.iter().map(|a| (a.prime(), a.sub())).collect();
-            let mut union: TT = 0;
+            let mut union: TT = TT::ZERO;
             for (k, (pr, sb)) in els.iter().enumerate() {
                 let pt = w.tt(*pr);
                 if tt_deps(pt) & !inf.lvars != 0 {
@@ -530,11 +964,11 @@ fn check_node(p: SddPtr, w: &mut Walk, infos: &[VInfo], compress: bool, fails: &
                 if tt_deps(w.tt(*sb)) & !inf.rvars != 0 {
                     fails.push(format!("node {}: sub {k} depends on variables outside the right child of vtree node {i}", w.show(p)));
                 }
-                if union & pt != 0 {
+                if !(union & pt).is_zero() {
                     fails.push(format!("node {}: prime {k} overlaps an earlier prime (not mutually exclusive)", w.show(p)));
                 }
                 union |= pt;
-                if compress && C04 && pt == 0 {
+                if compress && C04 && pt.is_zero() {
                     fails.push(format!("node {}: prime {k} is unsatisfiable", w.show(p)));
                 }
             }
@@ -554,7 +988,7 @@ fn check_node(p: SddPtr, w: &mut Walk, infos: &[VInfo], compress: bool, fails: &
                 }
                 if els.len() == 2 {
                     let (s0, s1) = (w.tt(els[0].1), w.tt(els[1].1));
-                    if (s0 == full && s1 == 0) || (s0 == 0 && s1 == full) {
+                    if (s0 == full && s1.is_zero()) || (s0.is_zero() && s1 == full) {
                         fails.push(format!("node {} is its own prime in disguise: {{(p,T),(~p,F)}} (not trimmed)", w.show(p)));
                     }
                 }
@@ -593,10 +1027,11 @@ pub fn run(case: &str, st: &mut Stats) -> Outcome {
     let mut nbin = 0;
     let mut has_cnf = false;
     let ix = |s: &str| -> usize { s.parse().unwrap() };
+    let mut w0 = Walk::new(); // input-distribution statistics only
     while i < t.len() {
         let (r, sp, adv): (SddPtr, TT, usize) = match t[i] {
-            "t" => (SddPtr::PtrTrue, !0, 1),
-            "f" => (SddPtr::PtrFalse, 0, 1),
+            "t" => (SddPtr::PtrTrue, TT::FULL, 1),
+            "f" => (SddPtr::PtrFalse, TT::ZERO, 1),
             "v" => {
                 let (v, p) = (ix(t[i + 1]), t[i + 2] == "1");
                 (builder.var(VarLabel::new(v as u64), p), if p { masks[v] } else { !masks[v] }, 3)
@@ -611,10 +1046,12 @@ pub fn run(case: &str, st: &mut Stats) -> Outcome {
                 match t[i] {
                     "a" => {
                         st.bump(classify(pool[a], pool[b], &infos));
+                        cells_stat(pool[a], pool[b], &infos, &mut w0, st);
                         (builder.and(pool[a], pool[b]), spec[a] & spec[b], 3)
                     }
                     "o" => {
                         st.bump(classify(pool[a].neg(), pool[b].neg(), &infos));
+                        cells_stat(pool[a], pool[b], &infos, &mut w0, st);
                         (builder.or(pool[a], pool[b]), spec[a] | spec[b], 3)
                     }
                     "x" => (builder.xor(pool[a], pool[b]), spec[a] ^ spec[b], 3),
@@ -656,9 +1093,9 @@ pub fn run(case: &str, st: &mut Stats) -> Outcome {
                     f.push(c);
                 }
                 // oracle: truth table from the raw clauses
-                let mut sp: TT = !0;
+                let mut sp: TT = TT::FULL;
                 for c in &f {
-                    let mut ct: TT = 0;
+                    let mut ct: TT = TT::ZERO;
                     for (v, b) in c {
                         ct |= if *b { masks[*v as usize] } else { !masks[*v as usize] };
                     }
@@ -684,7 +1121,7 @@ pub fn run(case: &str, st: &mut Stats) -> Outcome {
         out.push(w.show(*p));
         let got = w.tt(*p);
         if got != spec[k] {
-            fails.push(format!("pool entry {k} = {} has truth table {:032x}, the operation's definition gives {:032x}", w.show(*p), got, spec[k]));
+            fails.push(format!("pool entry {k} = {} has truth table {}, the operation's definition gives {}", w.show(*p), got.hex(), spec[k].hex()));
         }
     }
     out.push("#".to_string());
@@ -692,7 +1129,7 @@ pub fn run(case: &str, st: &mut Stats) -> Outcome {
         // clause order after the code's sort is unspecified: only denotations are determined
         out.clear();
         for p in pool.iter() {
-            out.push(format!("{:032x}", w.tt(*p)));
+            out.push(w.tt(*p).hex_lo());
         }
         out.push("#".to_string());
         out.push("tt".to_string());
@@ -764,4 +1201,35 @@ pub fn run(case: &str, st: &mut Stats) -> Outcome {
     }
     fails.truncate(5);
     Outcome { result: out.join(" "), fails, nontrivial: any_node && (nbin > 0 || has_cnf) }
+}
+
+#[cfg(test)]
+mod tt_tests {
+    use super::*;
+    #[test]
+    fn masks_and_cofactors_agree_with_rows() {
+        for v in 0..NV {
+            let m = var_mask(v);
+            for row in 0..256 {
+                assert_eq!(m.bit(row), (row >> v) & 1 == 1, "mask {v} row {row}");
+            }
+        }
+        let mut rng = Rng::new(7);
+        for _ in 0..200 {
+            let f = TT([((rng.next() as u128) << 64) | rng.next() as u128, ((rng.next() as u128) << 64) | rng.next() as u128]);
+            for v in 0..NV {
+                for b in [false, true] {
+                    let c = tt_cond(f, v, b);
+                    for row in 0..256 {
+                        let src = if b { row | (1 << v) } else { row & !(1 << v) };
+                        assert_eq!(c.bit(row), f.bit(src));
+                    }
+                }
+            }
+            assert_eq!((!f).hex().len(), 64);
+            assert_eq!(f & !f, TT::ZERO);
+            assert_eq!(f | !f, TT::full());
+            assert_eq!(f ^ f, TT::ZERO);
+        }
+    }
 }
